@@ -28,13 +28,13 @@ fires and decides at t = 3, connection 1 is accepted after the decision and is s
 accept timeout makes the loop leave -/
 def staleFlag : List Label :=
   [.sockAccept 0, .register, .addActive, .spawn, .serveBegin 0, .serveEnd 0, .handlerEnd 0 true,
-   .tick 3, .fire 1, .callback 1,
+   .tick 3, .fire 1, .cbRead 1, .callback 1,
    .sockAccept 1, .register, .addActive, .spawn, .serveBegin 1,
    .tick 4, .acceptTimeout, .check true]
 
 theorem pinned_exits_under_a_connection : verdict Shape.pinned cfg3 staleFlag = some true := by decide +kernel
 /-- the second repair alone does not help -/
-theorem only_stale_timer_fix_exits_under_a_connection : verdict ⟨false, true, false⟩ cfg3 staleFlag = some true := by
+theorem only_stale_timer_fix_exits_under_a_connection : verdict ⟨false, .own, false⟩ cfg3 staleFlag = some true := by
   decide +kernel
 /-- with the flag cleared on accept the loop cannot leave there: `check true` is not a step -/
 theorem repaired_does_not_exit : verdict Shape.repaired cfg3 staleFlag = none := by decide +kernel
@@ -49,19 +49,32 @@ def staleCallback : List Label :=
   [.sockAccept 0, .register, .addActive, .spawn, .serveBegin 0, .serveEnd 0, .handlerEnd 0 true,
    .tick 6, .fire 1,
    .sockAccept 1, .register, .addActive, .spawn, .serveBegin 1, .serveEnd 1, .handlerEnd 1 true,
-   .callback 1,
+   .cbRead 1, .callback 1,
    .tick 4, .acceptTimeout, .check true]
 
 theorem pinned_exits_early : verdict Shape.pinned cfg6 staleCallback = some true := by decide +kernel
 /-- the first repair alone does not help -/
-theorem only_flag_fix_exits_early : verdict ⟨true, false, false⟩ cfg6 staleCallback = some true := by decide +kernel
+theorem only_flag_fix_exits_early : verdict ⟨true, .none, false⟩ cfg6 staleCallback = some true := by decide +kernel
 /-- the stale callback also discards the newer timer: `timer = None` although timer 2 is armed -/
 theorem stale_callback_discards_timer :
-    ((ts ⟨true, false, false⟩ cfg6).run (staleCallback.take 17)).map (fun s => (s.timer, s.tstate 2)) = some (none, .armed) := by
+    ((ts ⟨true, .none, false⟩ cfg6).run (staleCallback.take 18)).map (fun s => (s.timer, s.tstate 2)) = some (none, .armed) := by
   decide +kernel
+/-- seeded change C33-7 — the identity test is there, but `fired` is the late-bound shared variable `timer`, read when timer 1's
+thread gets to CALL its callback (`cbRead 1`): by then connection 1 has come and gone and `timer` is timer 2, so the stale
+callback of timer 1 sees `timer is fired`, discards timer 2 and requests shutdown -/
+theorem late_bound_identity_exits_early : verdict ⟨true, .late true, false⟩ cfg6 staleCallback = some true := by decide +kernel
+theorem late_bound_identity_exits_early' : verdict ⟨true, .late false, false⟩ cfg6 staleCallback = some true := by
+  decide +kernel
+/-- had the argument been read at once (the thread is only delayed AFTER the read), the test would have worked: the very
+window a late binding opens is the one between the timer firing and its callback being called -/
+theorem late_bound_read_at_once_is_stale :
+    ((ts ⟨true, .late true, false⟩ cfg6).run
+      [.sockAccept 0, .register, .addActive, .spawn, .serveBegin 0, .serveEnd 0, .handlerEnd 0 true, .tick 6, .fire 1, .cbRead 1,
+       .sockAccept 1, .register, .addActive, .spawn, .serveBegin 1, .serveEnd 1, .handlerEnd 1 true,
+       .callback 1]).map (fun s => (s.timer, s.flag)) = some (some 2, false) := by decide +kernel
 theorem repaired_ignores_stale_callback : verdict Shape.repaired cfg6 staleCallback = none := by decide +kernel
 theorem repaired_keeps_timer :
-    ((ts Shape.repaired cfg6).run (staleCallback.take 17)).map (fun s => (s.timer, s.flag)) = some (some 2, false) := by
+    ((ts Shape.repaired cfg6).run (staleCallback.take 18)).map (fun s => (s.timer, s.flag)) = some (some 2, false) := by
   decide +kernel
 
 /-- seeded change C33-4 — the connection is counted by its OWN thread (`regInHandler`), both repairs kept: connection 0 comes
@@ -70,15 +83,15 @@ timer fires and its callback sees `conn_count == 0`; one accept timeout later th
 accepted and nobody has served it yet (it is counted and served only afterwards) -/
 def lateCount : List Label :=
   [.sockAccept 0, .addActive, .spawn, .hregister 0, .serveBegin 0, .serveEnd 0, .handlerEnd 0 true,
-   .tick 3, .sockAccept 1, .addActive, .spawn, .fire 1, .callback 1,
+   .tick 3, .sockAccept 1, .addActive, .spawn, .fire 1, .cbRead 1, .callback 1,
    .tick 4, .acceptTimeout, .check true,
    .hregister 1, .serveBegin 1]
 
 theorem handler_side_count_exits_under_a_connection :
-    verdict ⟨true, true, true⟩ cfg3 lateCount = some true := by decide +kernel
+    verdict ⟨true, .own, true⟩ cfg3 lateCount = some true := by decide +kernel
 /-- the counting section in the accept loop is not a step of that shape, and vice versa -/
 theorem handler_side_count_has_no_loop_register :
-    verdict ⟨true, true, true⟩ cfg3 [.sockAccept 0, .register] = none ∧
+    verdict ⟨true, .own, true⟩ cfg3 [.sockAccept 0, .register] = none ∧
     verdict Shape.repaired cfg3 [.sockAccept 0, .addActive] = none ∧
     verdict Shape.repaired cfg3 [.sockAccept 0, .register, .addActive, .spawn, .hregister 0] = none := by decide +kernel
 /-- in the repaired shape the same arrival is harmless: the loop counts the connection (and clears the flag) before the
@@ -86,7 +99,7 @@ thread exists, however late the thread runs -/
 theorem loop_side_count_survives_late_thread :
     verdict Shape.repaired cfg3
       [.sockAccept 0, .register, .addActive, .spawn, .serveBegin 0, .serveEnd 0, .handlerEnd 0 true,
-       .tick 3, .sockAccept 1, .fire 1, .callback 1, .register, .addActive, .spawn,
+       .tick 3, .sockAccept 1, .fire 1, .cbRead 1, .callback 1, .register, .addActive, .spawn,
        .tick 4, .acceptTimeout, .check false, .tick 4, .acceptTimeout, .check false, .serveBegin 1] = some false := by
   decide +kernel
 
@@ -118,12 +131,12 @@ def inodeHazard : List Label :=
    .spawn 1 0, .spawn 2 1]
 
 /-- with a `filelock` that lacks the re-check (allowed by `filelock>=3.13`): two worker processes, no clobbering involved -/
-theorem no_nlink_check_double_spawn : verdict ⟨false, true⟩ 8 inodeHazard = some (false, true, false, 0) := by decide +kernel
+theorem no_nlink_check_double_spawn : verdict ⟨false, true, true⟩ 8 inodeHazard = some (false, true, false, 0) := by decide +kernel
 /-- with the installed `filelock` the dead-inode lock is refused: `lockVerify 1 true` is not a step … -/
-theorem nlink_check_refuses_dead_inode : verdict ⟨true, true⟩ 8 inodeHazard = none := by decide +kernel
+theorem nlink_check_refuses_dead_inode : verdict ⟨true, true, true⟩ 8 inodeHazard = none := by decide +kernel
 /-- … launcher 1 drops the dead lock and polls again -/
 theorem nlink_check_retries :
-    ((ts ⟨true, true⟩ 8).run (inodeHazard.take 12 ++ [.lockVerify 1 false])).map (fun s => (s.pc 1, s.held 0)) =
+    ((ts ⟨true, true, true⟩ 8).run (inodeHazard.take 12 ++ [.lockVerify 1 false])).map (fun s => (s.pc 1, s.held 0)) =
       some (.opening .launch, none) := by decide +kernel
 
 /-- OPEN — a worker's exit-time unlink removes its successor's socket (`serve_unix`'s `finally` →
@@ -141,7 +154,7 @@ def exitUnlinkToctou : List Label :=
    .begin 3 .launch, .lockOpen 3, .lockFlock 3 true, .lockVerify 3 true, .probe 3 false, .unlinkStale 3 true, .writeMeta 3] ++
   startUp 3 2
 
-theorem exit_unlink_clobbers_successor : verdict ⟨true, true⟩ 8 exitUnlinkToctou = some (true, true, true, 2) := by
+theorem exit_unlink_clobbers_successor : verdict ⟨true, true, true⟩ 8 exitUnlinkToctou = some (true, true, true, 2) := by
   decide +kernel
 /-- the full statements of `C33_single_spawn` / `C33_accepting` (without the `clobbered = false` hypothesis) are false of
 the model of the code as it is -/
@@ -167,11 +180,26 @@ def announceBeforeListen : List Label :=
    .wListen 0]
 
 theorem announce_first_breaks_both_halves :
-    verdict ⟨true, false⟩ 8 announceBeforeListen = some (false, true, true, 1) := by decide +kernel
+    verdict ⟨true, false, true⟩ 8 announceBeforeListen = some (false, true, true, 1) := by decide +kernel
 /-- in the extracted order the announcement cannot come before `listen()` -/
-theorem listen_first_refuses : verdict ⟨true, true⟩ 8 announceBeforeListen = none := by decide +kernel
+theorem listen_first_refuses : verdict ⟨true, true, true⟩ 8 announceBeforeListen = none := by decide +kernel
 theorem listen_first_refuses_at :
-    (ts ⟨true, true⟩ 8).rejectIndex announceBeforeListen = some 12 := by decide +kernel
+    (ts ⟨true, true, true⟩ 8).rejectIndex announceBeforeListen = some 12 := by decide +kernel
+
+/-- seeded change C33-8 — the lock of an explicit-socket launch is derived from the path STRING (`lockBySocket = false`): launcher 1
+(spelling `s/x.sock`) and launcher 2 (spelling `link/x.sock`, `link → s`) each get "the" lock on their own file, both probe
+(nothing yet), both unlink, both create a worker for the one socket; worker 1 removes worker 0's fresh socket and binds -/
+def aliasedLocks : List Label :=
+  [.begin 1 .launch, .begin 2 .launch, .lockOpen 1, .lockOpen 2, .lockFlock 1 true, .lockVerify 1 true,
+   .lockFlock 2 true, .lockVerify 2 true,
+   .probe 1 false, .probe 2 false, .unlinkStale 1 true, .unlinkStale 2 true, .writeMeta 1, .writeMeta 2,
+   .spawn 1 0, .spawn 2 1]
+
+theorem string_keyed_lock_double_spawn : verdict ⟨true, true, false⟩ 8 aliasedLocks = some (false, true, false, 0) := by
+  decide +kernel
+/-- with the lock keyed by the socket the second launcher's flock fails: it waits -/
+theorem socket_keyed_lock_excludes : verdict ⟨true, true, true⟩ 8 aliasedLocks = none := by decide +kernel
+theorem socket_keyed_lock_excludes_at : (ts ⟨true, true, true⟩ 8).rejectIndex aliasedLocks = some 6 := by decide +kernel
 
 end Launch
 
